@@ -17,6 +17,9 @@ type ppCore struct {
 	Ord    int
 	run    *Run
 	FailOn map[string]bool
+	// Supply names a component for which PostProcessBeforeInstantiation hands back the registered
+	// instance itself, short-circuiting its creation.
+	Supply string
 }
 
 func (p *ppCore) Naming() string { return p.Nm }
@@ -39,7 +42,13 @@ func (p *ppCore) PostProcessAfterInitialization(c any, name string) (any, error)
 	return c, p.hit("after", name)
 }
 func (p *ppCore) PostProcessBeforeInstantiation(m *component_definition.Meta, name string) (any, error) {
-	return nil, p.hit("before-inst", name)
+	if err := p.hit("before-inst", name); err != nil {
+		return nil, err
+	}
+	if p.Supply != "" && name == p.Supply {
+		return m.Raw, nil
+	}
+	return nil, nil
 }
 func (p *ppCore) PostProcessAfterInstantiation(c any, name string) (bool, error) {
 	return true, p.hit("after-inst", name)
@@ -72,6 +81,30 @@ type PPPriorityOnly struct{ ppCore }
 
 func (p *PPPriorityOnly) Priority() {}
 
+// Lazy variants: the container uses the registered instance directly instead of creating it first.
+type PPLazyUnordered struct{ PPUnordered }
+type PPLazyOrdered struct{ PPOrdered }
+type PPLazyPriority struct{ PPPriority }
+type PPLazyPriorityOnly struct{ PPPriorityOnly }
+
+func (*PPLazyUnordered) LazyInit()    {}
+func (*PPLazyOrdered) LazyInit()      {}
+func (*PPLazyPriority) LazyInit()     {}
+func (*PPLazyPriorityOnly) LazyInit() {}
+
+func NewLazyPP(class int, name string, ord int) any {
+	c := ppCore{Nm: name, Ord: ord, FailOn: map[string]bool{}}
+	switch class {
+	case 0:
+		return &PPLazyUnordered{PPUnordered{c}}
+	case 1:
+		return &PPLazyOrdered{PPOrdered{c}}
+	case 2:
+		return &PPLazyPriority{PPPriority{c}}
+	}
+	return &PPLazyPriorityOnly{PPPriorityOnly{c}}
+}
+
 func NewPP(class int, name string, ord int) any {
 	c := ppCore{Nm: name, Ord: ord, FailOn: map[string]bool{}}
 	switch class {
@@ -94,6 +127,14 @@ func PPCoreOf(p any) *ppCore {
 	case *PPPriority:
 		return &x.ppCore
 	case *PPPriorityOnly:
+		return &x.ppCore
+	case *PPLazyUnordered:
+		return &x.ppCore
+	case *PPLazyOrdered:
+		return &x.ppCore
+	case *PPLazyPriority:
+		return &x.ppCore
+	case *PPLazyPriorityOnly:
 		return &x.ppCore
 	}
 	return nil
